@@ -142,6 +142,8 @@ inductive Act
   | wrAdd (wr : Nat) (trigs : List Trig)
   | wrRemove (wr : Nat) (trigs : List Trig)
   | wrRun (wr : Nat)
+  | mutNoReact (e ty v : Nat)            -- `ReactiveMut::get_noreact`: write without triggering
+  | resNoReact (ty v : Nat)              -- `ReactResMut::get_noreact`
 deriving DecidableEq, Repr, Inhabited
 
 /-- Top-level operations performed by the harness between reaction trees (stack empty). -/
